@@ -209,12 +209,18 @@ def run_vector(exe, reftool, fx, vec, idx, workroot):
             import threading
 
             def feed():
+                fd = -1
                 try:
                     fd = os.open(info["in"], os.O_WRONLY)
                     os.write(fd, info["fifo_data"])
-                    os.close(fd)
                 except OSError:
                     pass
+                finally:
+                    if fd >= 0:
+                        try:
+                            os.close(fd)
+                        except OSError:
+                            pass
             feeder = threading.Thread(target=feed, daemon=True)
             feeder.start()
         try:
@@ -414,8 +420,20 @@ def run(pid, tier, replay=None):
                 return (i, v, ("__skipped__", "", []))
             return (i, v, run_vector(exe, reftool, fx, v, i, workroot))
 
-        with cf.ThreadPoolExecutor(max_workers=c.NCPU) as ex:
-            for i, v, (key, detail, tail) in ex.map(work, list(enumerate(vecs))):
+        def results():
+            # bounded window of outstanding runs (the full product has hundreds of thousands of vectors)
+            import collections
+            with cf.ThreadPoolExecutor(max_workers=c.NCPU) as ex:
+                pending = collections.deque()
+                for item in enumerate(vecs):
+                    pending.append(ex.submit(work, item))
+                    if len(pending) >= 4 * c.NCPU:
+                        yield pending.popleft().result()
+                while pending:
+                    yield pending.popleft().result()
+
+        if True:
+            for i, v, (key, detail, tail) in results():
                 if key == "__skipped__":
                     capped = True
                     continue
